@@ -138,6 +138,7 @@ public:
         for (auto& line : lines) {
             unsigned long long size = 0, tag = 0;
             char kind[8] = { 0 }, from[8] = { 0 };
+            if (!line.empty() && line[0] == 'n') continue; // no-op input: the handler issues no write for it
             if (sscanf(line.c_str(), "w %llu %llu %7s %7s", &size, &tag, kind, from) != 4) {
                 sim::IgnoreScope ig;
                 w_->cmd_errors++;
@@ -266,6 +267,10 @@ Json gen_c06_cap(sim::Rng& rng, int tier, long size_cap)
             c["stall_ms"] = static_cast<long>(1 + rng.below(40));
         }
         c["start_us"] = static_cast<long>(rng.below(2000));
+        if (rng.chance(0.4)) { // input that triggers no write keeps arriving while writes are pending
+            c["chatter_us"] = static_cast<long>(50 + rng.below(3000));
+            c["chatter_count"] = static_cast<int>(1 + rng.below(40));
+        }
         conns.push(c);
     }
     p["conns"] = conns;
@@ -483,6 +488,10 @@ void run(const Json& plan)
         cl->to_server.jitter_ns = cl->from_server.jitter_ns;
         cl->read_burst = static_cast<size_t>(std::max<i64>(0, c.num("read_burst", 0)));
         cl->read_interval_ns = c.num("read_interval_us", 0) * 1000;
+        cl->chatter_ns = std::max<i64>(0, c.num("chatter_us", 0)) * 1000;
+        cl->chatter_count = static_cast<int>(std::max<i64>(0, std::min<i64>(200, c.num("chatter_count", 0))));
+        cl->chatter_data = "n\n";
+        if (cl->chatter_ns > 0 && cl->chatter_count > 0) r.probe("input-without-write-while-writes-pending");
         cl->start(c.num("start_us", 0) * 1000);
         clients.push_back(cl);
         expected_bytes.push_back(total);
